@@ -18,7 +18,7 @@ def programs(tier, rnd: random.Random):
                 f"{{ {ta} a = RssV; RddV = ({tb})a; }}",                      # explicit cast
                 f"{{ {ta} a = RssV; {tb} b = a; RddV = b; }}",                # initialisation
                 f"{{ {ta} a = RssV; {tb} b; b = a; RddV = b; }}",             # assignment to a local
-                f"{{ {ta} a = RssV; mem_store_{sw(tb)}(EA, a); }}",           # store
+                f"{{ {ta} a = RssV; mem_store_{sw(tb)}(RtV, a); }}",          # store (to a defined address)
             ]
         progs += [f"{{ {ta} a = RssV; RdV = a; }}", f"{{ {ta} a = RssV; RddV = a; }}", f"{{ {ta} a = RssV; PdV = a; }}",  # register targets
                   f"{{ {ta} a = RssV; RdV = clz32(a); }}", f"{{ {ta} a = RssV; RddV = clz64(a); }}",                  # argument passing
